@@ -25,6 +25,14 @@ def main():
     if job['kind'] == 'sim':
         case, run = S.drive(job['recipe'], job['mask'])
         print(json.dumps(dict(obs=case['obs'], slots=case['float_slots'], err=run.err)))
+    elif job['kind'] == 'runsim':
+        # the public entry point with the real WorkloadGenerator: optionally after other runs in this process
+        import logging
+        logging.disable(logging.CRITICAL)
+        from eudoxia.simulator import run_simulator
+        for other in job.get('before', []):
+            run_simulator(dict(other))
+        print(json.dumps(run_simulator(dict(job['params'])).to_dict(), sort_keys=True, default=str))
     elif job['kind'] == 'gen':
         from harness.props.C07 import generated_workload
         print(json.dumps(generated_workload(job['params'], job['nticks'])))
